@@ -194,3 +194,10 @@ def c17_nested_qualname(case, detail):
     if 'cannot find' not in detail or 'in the module' not in detail:
         return False
     return 'nested-qualname' in c17.features(c17.build(tuple(case['spec'])))
+
+
+def c06_comma_in_tag_shorthand(case, detail):
+    """',' inside a shorthand tag ('!a,b', '!!s,', '!e!x,'): YAML 1.1 ns-uri-char allows it and the Python scanner takes it into
+    the tag; libyaml 0.2.5 follows YAML 1.2 (flow indicators end a shorthand tag)."""
+    t = case.get('input')
+    return isinstance(t, str) and _re.search(r'(^|[\s\[{,])!(?!<)[^\s<>]*,', t) is not None
